@@ -50,6 +50,13 @@ def havoc_sstate(ex, st):
     st.ghost['sstate'] = z3.Array(uid('sstate'), Bound, z3.IntSort())
 
 
+def havoc_clock(ex, st):
+    # the allocation clock only moves forward
+    old = clock(st)
+    st.ghost['clock'] = z3.Int(uid('clock'))
+    st.assume(st.ghost['clock'] >= old)
+
+
 def make_sampler(ex, st, explored=None):
     """Arbitrary Sampler object (all run-state fields symbolic)."""
     def arr(k, name, n=None):
@@ -197,9 +204,7 @@ def inv_bounds(V):
     return [('B_distinct', z3.And(
         z3.ForAll([i, j], z3.Implies(
             z3.And(i >= 0, i < j, j < b.n), born(b.at(i)) < born(b.at(j)))),
-        A.forall_idx(b.n, lambda t: born(b.at(t)) < ck))),
-        ('B_classes', z3.ForAll([i], z3.Implies(
-            z3.And(i >= 0, i < b.n), isNB(b.at(i)) == (i > 0))))]
+        A.forall_idx(b.n, lambda t: born(b.at(t)) < ck)))]
 
 
 def InvP(V):
@@ -241,6 +246,7 @@ def install_bound_api(reg, cx):
                                                  arg_cells=[]))
     reg.method_effects['sample']['ghost'] = ['sstate', 'rng']
     reg.ghost_havoc['sstate'] = havoc_sstate
+    reg.ghost_havoc['clock'] = havoc_clock
 
     def getattr_hook(ex, st, o, d, name, node):
         if isinstance(d, Sym) and d.k == 'Bound':
@@ -356,15 +362,21 @@ from pyvc.lib import lse_term as lse_of  # noqa: E402
 
 
 def inv_exp_arrays(V):
+    """S3: the snapshot taken at the end of exploration is a prefix of what is
+    stored now; S2: in either view there are never more samples than
+    proposals"""
     nb = S(V, 'bounds').n
     expl = V.bool('self.explored')
-    pts = S(V, 'points')
+    ll = S(V, 'log_l')
     ee, ne, ns = S(V, 'shell_end_exp'), S(V, 'shell_n_sample_exp'), \
         S(V, 'shell_n_sample')
-    return [('S3_exploration_snapshot', z3.Implies(expl, z3.And(
-        ee.n == nb, ne.n == nb, A.forall_idx(nb, lambda i: z3.And(
-            ee.at(i) >= 0, ee.at(i) <= pts.alen(i), ne.at(i) >= 0,
-            ne.at(i) <= ns.at(i))))))]
+    return [('S2_samples_le_proposals', A.forall_idx(nb, lambda i: z3.And(
+        ll.alen(i) >= 0, ll.alen(i) <= ns.at(i)))),
+        ('S3_exploration_snapshot', z3.Implies(expl, z3.And(
+            ee.n == nb, ne.n == nb, A.forall_idx(nb, lambda i: z3.And(
+                ee.at(i) >= 0, ee.at(i) <= ll.alen(i), ne.at(i) >= 0,
+                ne.at(i) <= ns.at(i),
+                ll.alen(i) - ee.at(i) <= ns.at(i) - ne.at(i))))))]
 
 
 def shell_view(V, i):
@@ -405,19 +417,30 @@ def S1_at(V, i):
 
 
 def inv_N(V):
-    """shell_n is the number of stored samples in the current view, never more
-    than the number of proposals (S2)"""
+    """shell_n is the number of stored samples in the current view"""
     nb = S(V, 'bounds').n
     i = A.qi('i')
 
     def body(i):
         start, ns, ll = shell_view(V, i)
-        return z3.And(S(V, 'shell_n').at(i) == ll.n, ll.n >= 0,
-                      S(V, 'shell_n').at(i) <= ns)
-    return [('S2_shell_n_counts_view', z3.ForAll([i], z3.Implies(
+        return S(V, 'shell_n').at(i) == ll.n
+    return [('S1_shell_n_counts_view', z3.ForAll([i], z3.Implies(
         z3.And(i >= 0, i < nb), body(i))))] + inv_exp_arrays(V)
 
 
 def InvAll(V):    # noqa: F811
     return (InvP(V) + inv_blobs(V) + inv_rows_aligned(V) + inv_config(V) +
             inv_N(V))
+
+
+def inv_phase(V):
+    nb = S(V, 'bounds').n
+    expl = V.bool('self.explored')
+    pts = S(V, 'points')
+    return [('explored_needs_bounds', z3.Implies(expl, nb >= 1)),
+            ('X_shells_nonempty_after_exploration', z3.Implies(
+                expl, A.forall_idx(nb, lambda i: pts.alen(i) >= 1)))]
+
+
+def InvRun(V):
+    return InvAll(V) + inv_phase(V)
